@@ -85,3 +85,87 @@ pub fn permutation4(k: u64) -> [usize; 4] {
     }
     out
 }
+
+/// Flavour of a case: which `BEDLike` implementor carries the coordinates, and how its other fields are
+/// filled (strand none/+/-, name and score present or absent). The properties over `BEDLike` hold for
+/// every implementor, so the flavour never changes the expected observable; it is carried as an optional
+/// trailing token `~f<n>` of the case (flavour 0 = `GenomicRange`, and is not written).
+pub fn split_flavour(t: &[String]) -> (&[String], u64) {
+    if let Some(last) = t.last() {
+        if let Some(n) = last.strip_prefix("~f").and_then(|s| s.parse::<u64>().ok()) { return (&t[..t.len() - 1], n); }
+    }
+    (t, 0)
+}
+pub fn push_flavour(mut t: Vec<String>, f: u64) -> Vec<String> { if f != 0 { t.push(format!("~f{}", f)); } t }
+pub const N_KINDS: u64 = 10;
+pub const N_FLAVOURS: u64 = N_KINDS * 12;
+/// same type, field variant advanced by `i` (per-record variation inside one case)
+pub fn rot_flavour(fl: u64, i: usize) -> u64 { (fl % N_KINDS) + N_KINDS * ((fl / N_KINDS + i as u64) % 12) }
+pub fn gen_flavour(rng: &mut Rng) -> u64 { if rng.chance(1, 3) { 0 } else { rng.below(N_FLAVOURS) } }
+
+/// `with_bedlike!(flavour, &rec, |x| expr)`: evaluates `expr` with `x` bound to a record of the flavour's type
+#[macro_export]
+macro_rules! with_bedlike {
+    ($fl:expr, $rec:expr, |$x:ident| $body:expr) => {{
+        use bed_utils::bed::{BedGraph, BroadPeak, NarrowPeak, OptionalFields, Score, Strand, BED};
+        let fl: u64 = $fl; let r: &$crate::props::common::Rec = $rec;
+        let var = fl / $crate::props::common::N_KINDS;
+        let strand = match var % 3 { 0 => None, 1 => Some(Strand::Forward), _ => Some(Strand::Reverse) };
+        let name = if (var / 3) % 2 == 0 { None } else { Some("nm".to_string()) };
+        let score: Option<Score> = if (var / 6) % 2 == 0 { None } else { Score::try_from(500u16).ok() };
+        match fl % $crate::props::common::N_KINDS {
+            0 => { let $x = r.gr(); $body }
+            1 => { let $x: BED<3> = BED::new(r.chrom.clone(), r.start, r.end, name, score, strand, OptionalFields::default()); $body }
+            2 => { let $x: BED<4> = BED::new(r.chrom.clone(), r.start, r.end, name, score, strand, OptionalFields::default()); $body }
+            3 => { let $x: BED<5> = BED::new(r.chrom.clone(), r.start, r.end, name, score, strand, OptionalFields::default()); $body }
+            4 => { let $x: BED<6> = BED::new(r.chrom.clone(), r.start, r.end, name, score, strand, OptionalFields::default()); $body }
+            5 => { let $x: BED<12> = BED::new(r.chrom.clone(), r.start, r.end, name, score, strand, OptionalFields::default()); $body }
+            6 => { let $x = NarrowPeak { chrom: r.chrom.clone(), start: r.start, end: r.end, name, score, strand, signal_value: 1.5, p_value: None, q_value: Some(0.5), peak: 3 }; $body }
+            7 => { let $x = BroadPeak { chrom: r.chrom.clone(), start: r.start, end: r.end, name, score, strand, signal_value: 1.5, p_value: Some(2.0), q_value: None }; $body }
+            8 => { let $x: BedGraph<i64> = BedGraph::new(r.chrom.clone(), r.start, r.end, -7); $body }
+            _ => { let $x: BedGraph<f64> = BedGraph::new(r.chrom.clone(), r.start, r.end, 0.25); $body }
+        }
+    }};
+}
+/// `with_bedlikes!(flavour, &recs, |xs| expr)`: `xs: Vec<T>` of the flavour's type, the field variant rotating per record
+#[macro_export]
+macro_rules! with_bedlikes {
+    ($fl:expr, $recs:expr, |$xs:ident| $body:expr) => {{
+        use bed_utils::bed::{BedGraph, BroadPeak, NarrowPeak, OptionalFields, Score, Strand, BED};
+        let fl: u64 = $fl; let rs: &[$crate::props::common::Rec] = $recs;
+        let fields = |i: usize| {
+            let var = fl / $crate::props::common::N_KINDS + i as u64;
+            (match var % 3 { 0 => None, 1 => Some(Strand::Forward), _ => Some(Strand::Reverse) },
+             if (var / 3) % 2 == 0 { None } else { Some(format!("nm{}", i)) },
+             if (var / 6) % 2 == 0 { None } else { Score::try_from(500u16).ok() })
+        };
+        macro_rules! bedn { ($n:literal) => { rs.iter().enumerate().map(|(i, r)| { let (st, nm, sc) = fields(i); let b: BED<$n> = BED::new(r.chrom.clone(), r.start, r.end, nm, sc, st, OptionalFields::default()); b }).collect::<Vec<_>>() }; }
+        match fl % $crate::props::common::N_KINDS {
+            0 => { let $xs = rs.iter().map(|r| r.gr()).collect::<Vec<_>>(); $body }
+            1 => { let $xs = bedn!(3); $body }
+            2 => { let $xs = bedn!(4); $body }
+            3 => { let $xs = bedn!(5); $body }
+            4 => { let $xs = bedn!(6); $body }
+            5 => { let $xs = bedn!(12); $body }
+            6 => { let $xs = rs.iter().enumerate().map(|(i, r)| { let (strand, name, score) = fields(i); NarrowPeak { chrom: r.chrom.clone(), start: r.start, end: r.end, name, score, strand, signal_value: 1.5, p_value: None, q_value: Some(0.5), peak: 3 } }).collect::<Vec<_>>(); $body }
+            7 => { let $xs = rs.iter().enumerate().map(|(i, r)| { let (strand, name, score) = fields(i); BroadPeak { chrom: r.chrom.clone(), start: r.start, end: r.end, name, score, strand, signal_value: 1.5, p_value: Some(2.0), q_value: None } }).collect::<Vec<_>>(); $body }
+            8 => { let $xs = rs.iter().map(|r| BedGraph::<i64>::new(r.chrom.clone(), r.start, r.end, -7)).collect::<Vec<_>>(); $body }
+            _ => { let $xs = rs.iter().map(|r| BedGraph::<f64>::new(r.chrom.clone(), r.start, r.end, 0.25)).collect::<Vec<_>>(); $body }
+        }
+    }};
+}
+
+/// append a random flavour to every generated case (the exhaustive small-scope streams keep flavour 0)
+pub fn add_flavours(rng: &mut Rng, cases: &mut Vec<crate::runner::Case>) {
+    for c in cases.iter_mut() {
+        if c.stream != "exhaustive" { let f = gen_flavour(rng); if f != 0 { c.input.push(format!("~f{}", f)); } }
+    }
+}
+/// shrink candidates of a flavoured case: flavour 0 first, then the property's own candidates with the flavour kept
+pub fn shrink_flavoured(t: &[String], inner: impl Fn(&[String]) -> Vec<Vec<String>>) -> Vec<Vec<String>> {
+    let (base, fl) = split_flavour(t);
+    let mut out = vec![];
+    if fl != 0 { out.push(base.to_vec()); }
+    out.extend(inner(base).into_iter().map(|c| push_flavour(c, fl)));
+    out
+}
